@@ -225,6 +225,11 @@ for _f in AMORPH_FNS:
     COMPONENTS[f"amorph.{_f}"] = (_mk_amorph_component(_f), "full")
 
 
+DICT_FIELDS = {"BBANDS": ["BBL", "BBM", "BBU"], "KC": ["lower", "band", "upper"], "DONCHIAN": ["DCL", "DCM", "DCU"], "HL": ["low", "high"],
+               "SUPERTREND": ["trend", "direction", "long", "short"], "MACD": ["MACD", "signal", "histogram"],
+               "STOCH": ["stoch", "k", "d"], "AROON": ["AROONU", "AROOND", "AROONOSC"], "ADX": ["ADX", "DM_Plus", "DM_Neg"]}
+
+
 def _probe_name(spec):
     return specs.build_indicator({**spec, "fill": False, "ha": False, "life": None}, []).name
 
@@ -242,6 +247,19 @@ def gen_hexital(rng, size, ha_ok=False, life_ok=False, programs=True, enc=None):
             unit, k = (htf[0], int(htf[1:])) if htf else ("T", rng.choice([1, 5]))
             sp["tf"] = f"{unit}{k * mult}"
         members.append(sp)
+    # an indicator fed by another member's reading (a late-starting input), registered after (or before) it
+    if rng.random() < 0.3:
+        src = members[0]
+        try:
+            src_name = _probe_name(src)
+            fields = DICT_FIELDS.get(src["kind"])
+            inp = src_name + ("." + rng.choice(fields) if fields else "")
+            dep = {"kind": rng.choice(["EMA", "RMA", "SMA", "WMA", "ROC", "STDEV", "RSI"]), "period": rng.randint(2, 6), "input": inp, "round": 4}
+            if src.get("tf"):
+                dep["tf"] = src["tf"]
+            members.insert(rng.choice([1, 1, 1, 0]), dep)
+        except Exception:  # noqa
+            pass
     stream, meta = gen.gen_stream(rng, n, step=max(1, base_step // rng.choice([1, 1, 2, 5])))
     sched, shape = gen.gen_schedule(rng, n)
     parts = gen.split_by(stream, sched)
@@ -306,11 +324,6 @@ def gen_hexital_ha(rng, size):
 @component("hexital.life")
 def gen_hexital_life(rng, size):
     return gen_hexital(rng, size, life_ok=True)
-
-
-DICT_FIELDS = {"BBANDS": ["BBL", "BBM", "BBU"], "KC": ["lower", "band", "upper"], "DONCHIAN": ["DCL", "DCM", "DCU"], "HL": ["low", "high"],
-               "SUPERTREND": ["trend", "direction", "long", "short"], "MACD": ["MACD", "signal", "histogram"],
-               "STOCH": ["stoch", "k", "d"], "AROON": ["AROONU", "AROOND", "AROONOSC"], "ADX": ["ADX", "DM_Plus", "DM_Neg"]}
 
 
 @component("access")
@@ -521,7 +534,8 @@ def _worker(args):
         errs = sorted({x for x in io if x.startswith("err ") or x.startswith("aerr ")})
         nontrivial = len(lines) > 2 and any(x.startswith("C ") or x[:2] in ("i:", "f:", "b:") or x.isdigit() for x in io)
         res.append({"case": i, "meta": meta, "diff": diff, "errors": errs, "nontrivial": nontrivial,
-                    "hash": hash(tuple(lines)), "nlines": len(lines)})
+                    "hash": hash(tuple(lines)), "nlines": len(lines),
+                    "sample": [l[:160] for l in lines[:4]] if i == 0 else None})
     return res
 
 
@@ -554,6 +568,7 @@ def run_component(comp, seed, n_cases, size, workers=None, tz=None):
         "distinct_nontrivial": len({r["hash"] for r in flat if r["nontrivial"]}),
         "disagreements": dis,
         "distribution": dist,
+        "sample": next((r["sample"] for r in flat if r.get("sample")), None),
     }
 
 
